@@ -84,7 +84,7 @@ pub fn client(args: &[String]) -> i32 {
 }
 
 /// `simworld mkrepo --out DIR --world N --versions ROOT,TS,SNAP,TARGETS[,DELEG] [--consistent]
-///  [--rotate-at V] [--target NAME:SIZE]...` writes `DIR/metadata`, `DIR/targets` and `DIR/root.json`
+///  [--rotate-at V] [--rotate-keep] [--target NAME:SIZE]...` writes `DIR/metadata`, `DIR/targets` and `DIR/root.json`
 /// (version 1, the shipped root). Keys depend only on the world number, so states written by
 /// separate invocations belong to one repository history.
 pub fn mkrepo(args: &[String]) -> i32 {
@@ -97,15 +97,26 @@ pub fn mkrepo(args: &[String]) -> i32 {
     let consistent = args.iter().any(|a| a == "--consistent");
     // from this root version on, the timestamp and snapshot keys are different ones
     let rotate_at: u64 = arg(args, "--rotate-at").and_then(|s| s.parse().ok()).unwrap_or(u64::MAX);
+    // --rotate-keep: timestamp and snapshot have two keys each (threshold 1) from the start; the
+    // rotation replaces the second one and keeps the first, so that documents signed before the
+    // rotation (by the first key) still verify under the newer root
+    let keep = args.iter().any(|a| a == "--rotate-keep");
     let root_spec = |v: u64| {
         let gen = if v >= rotate_at { 50 } else { 0 };
+        let online = |base: u64| {
+            if keep {
+                RoleKeys { keys: vec![keys::ed(world, base), keys::ed(world, base + 20 + gen)], threshold: 1 }
+            } else {
+                RoleKeys::one(&keys::ed(world, base + gen))
+            }
+        };
         RootSpec {
             version: v,
             expires: FAR,
             consistent_snapshot: consistent,
             root: RoleKeys::one(&keys::ed(world, 1)),
-            timestamp: RoleKeys::one(&keys::ed(world, 2 + gen)),
-            snapshot: RoleKeys::one(&keys::ed(world, 3 + gen)),
+            timestamp: online(2),
+            snapshot: online(3),
             targets: RoleKeys::one(&keys::ed(world, 4)),
         }
     };
